@@ -699,9 +699,33 @@ class _WState(object):
                 if n is None:
                     raise Undecided('inet_pton family', e)
                 return [Item('raw', n=n, field=self.field(e.args[1]), node=e, conv='inet_pton')]
-            if norm(fn) in ('bytes',) and len(e.args) == 1 and isinstance(e.args[0], ast.List):
-                # bytes([expr]) -> one byte each
-                return [Item('int', fmt='B', field=self.field(x), node=e, value=x) for x in e.args[0].elts]
+            if norm(fn) in ('bytes',) and len(e.args) == 1 and isinstance(e.args[0], (ast.List, ast.Tuple)):
+                # bytes([expr]) -> one byte each (a constant element is a constant byte)
+                out = []
+                for x in e.args[0].elts:
+                    xv = self.f(x)
+                    if isinstance(xv, int) and not isinstance(xv, bool) and 0 <= xv <= 255:
+                        out.append(Item('const', value=bytes([xv]), node=e))
+                    else:
+                        out.append(Item('int', fmt='B', field=self.field(x), node=e, value=x))
+                return out
+            # <int expr>.to_bytes(n, 'little' | 'big'[, signed=...])
+            if isinstance(fn, ast.Attribute) and fn.attr == 'to_bytes' and 1 <= len(e.args) <= 2:
+                nb = self.f(e.args[0])
+                order = self.f(e.args[1]) if len(e.args) == 2 else None
+                signed = False
+                for kw in e.keywords:
+                    if kw.arg == 'byteorder':
+                        order = self.f(kw.value)
+                    elif kw.arg == 'signed':
+                        signed = self.f(kw.value)
+                    elif kw.arg == 'length':
+                        nb = self.f(kw.value)
+                code = {1: 'B', 2: 'H', 4: 'I', 8: 'Q'}.get(nb)
+                if code is not None and order in ('little', 'big') and signed in (True, False):
+                    code = code.lower() if signed else code
+                    fmt = code if nb == 1 and not signed else ('<' if order == 'little' else '>') + code
+                    return [Item('int', fmt=fmt, field=self.field(fn.value), node=e, value=fn.value)]
             if norm(fn) == 'bytes' and not e.args:
                 return []
         if isinstance(e, ast.Name) and e.id in self.bufs and e.id not in self.env:
